@@ -53,6 +53,8 @@ def strip_attr(a, keys):
     out = {}
     for n, v in a.items():
         e = {k: v.get(k) for k in keys}
+        if 'ty' in e and v.get('nest') not in (None, 'none'):
+            e['ty'] = None   # nested attributes carry no Type of their own in the literal; their type is the tree below
         e['attrs'] = strip_attr(v.get('attrs'), keys)
         out[n] = e
     return out
@@ -119,7 +121,7 @@ def c01_case(b, known):
             if sep:
                 # the struct type is qualified in the separate-package layout
                 import re
-                sig = re.sub(r'\*[A-Za-z0-9_]+\.' + t + r'\)', '*' + t + ')', sig)
+                sig = re.sub(r'\*[A-Za-z0-9_]+\.' + t + r'\b', '*' + t, sig)
             if sig != want:
                 fails.append(f'signature of {name}: {sig}')
     if b['status'].get('stage') == 'build':
@@ -341,3 +343,453 @@ EVALUATORS = {
     'C14': eval_c14,
     'C16': eval_c16,
 }
+
+
+# ----------------------------------------------------------------------------------------------------------
+# helpers on abstract cases
+
+def find_msg(case, name):
+    for m in case['request']['file']['messages']:
+        if m['name'] == name:
+            return m
+    for d in case['request'].get('deps') or []:
+        for m in d['messages']:
+            if m['name'] == name:
+                return m
+    return None
+
+
+def occurrences(case, roots, max_depth=6):
+    """(path, typeName, field, message) for every field occurrence below the roots (README path rule);
+    nothing below an excluded field"""
+    out = []
+    excluded = set(((case.get('yaml') or {}).get('excludeFields')) or [])
+
+    def walk(m, path, depth):
+        if depth > max_depth:
+            return
+        for f in m['fields']:
+            if f.get('embed'):
+                sub = find_msg(case, f['typeName'])
+                if sub and (m['name'] + '.' + f['name']) not in excluded and m['name'] not in excluded:
+                    walk(sub, path, depth + 1)
+                continue
+            out.append((path + '.' + f['name'], m['name'] + '.' + f['name'], f, m))
+            if (path + '.' + f['name']) in excluded or (m['name'] + '.' + f['name']) in excluded:
+                continue
+            if f['type'] == 'message':
+                sub = find_msg(case, f['typeName'])
+                if sub:
+                    walk(sub, path + '.' + f['name'], depth + 1)
+    for r in roots:
+        m = find_msg(case, r)
+        if m:
+            walk(m, r, 0)
+    return out
+
+
+def roots_of(case):
+    y = case.get('yaml') or {}
+    types = list(y.get('types') or [])
+    for kv in case.get('cli') or []:
+        if kv['k'] == 'types' and kv['v'].strip():
+            types = kv['v'].strip().split('+')
+    names = [m['name'] for m in case['request']['file']['messages']]
+    return [t for t in types if t in names]
+
+
+def funcs_of_type(t):
+    return ['GenSchema' + t, f'Copy{t}FromTerraform', f'Copy{t}ToTerraform']
+
+
+def model_emit(v):
+    return (v.get('model') or [{}])[0]
+
+
+# ----------------------------------------------------------------------------------------------------------
+# C12
+
+def eval_c12(batches, tier, seed, known, info):
+    out = {'evaluations': 0, 'violations': [], 'tie_breaks': [], 'distinct': [], 'samples': [], 'coverage': {}, 'known': {}}
+    rnd = random.Random(seed + 12)
+    for b in batches[: (4 if tier == 'quick' else len(batches))]:
+        if not b['static'] or b['static'].get('parseError') or b['case'].get('yamlState') != 'ok':
+            continue
+        base = run_variant(info, 'c12base', b['case'])
+        if not base['static']:
+            continue
+        roots = [f[len('GenSchema'):] for f in base['static']['funcs'] if f.startswith('GenSchema')]
+        variants = []
+        for t in roots[:3]:
+            c = copy.deepcopy(b['case'])
+            c['yaml']['types'] = [t]
+            variants.append((f'only-{t}', c, [t]))
+        if len(roots) >= 2:
+            sub = rnd.sample(roots, max(1, len(roots) // 2))
+            c = copy.deepcopy(b['case'])
+            c['yaml']['types'] = sub
+            variants.append(('subset', c, sub))
+        # unrelated extra message and unrelated dependency file
+        c = copy.deepcopy(b['case'])
+        c['request']['file']['messages'].insert(0, {'name': 'UnrelatedExtraMessage', 'comment': None, 'oneofs': [], 'fields': [
+            {'name': 'Zzfield', 'number': 1, 'type': 'string', 'typeName': '', 'card': 'single', 'mapKey': '', 'nullable': '', 'embed': False,
+             'jsonTag': None, 'castType': '', 'customType': '', 'stdTime': False, 'stdDuration': False, 'oneof': -1, 'comment': None}]})
+        c['request']['deps'] = (c['request'].get('deps') or []) + [{'name': 'other/dep.proto', 'package': 'otherdep', 'enums': [], 'messages': [
+            {'name': 'DepOnlyMessage', 'comment': None, 'oneofs': [], 'fields': [
+                {'name': 'Depfield', 'number': 1, 'type': 'int64', 'typeName': '', 'card': 'single', 'mapKey': '', 'nullable': '', 'embed': False,
+                 'jsonTag': None, 'castType': '', 'customType': '', 'stdTime': False, 'stdDuration': False, 'oneof': -1, 'comment': None}]}]}]
+        variants.append(('extended-request', c, roots))
+        for name, c, sel in variants:
+            v = run_variant(info, 'c12' + name, c)
+            out['evaluations'] += 1
+            out['distinct'].append(v['dir'])
+            st = v['static']
+            if not st or st.get('parseError'):
+                out['violations'].append({'kind': 'no parsable output for a sub-selection', 'variant': v['dir'], 'stderr': (v['plugin'] or {}).get('stderr', '')[-300:]})
+                continue
+            want = set(f for t in sel for f in funcs_of_type(t))
+            got = set(st['funcs'])
+            if got != want:
+                out['violations'].append({'kind': 'emitted functions are not exactly those of the selected types', 'variant': v['dir'],
+                                          'missing': sorted(want - got), 'extra': sorted(got - want)})
+            for fn in sorted(want & got):
+                if st['funcSha'].get(fn) != base['static']['funcSha'].get(fn):
+                    out['violations'].append({'kind': 'function text depends on the rest of the selection / request', 'variant': v['dir'], 'func': fn})
+                    break
+            m = model_emit(v)
+            if sorted(m.get('funcs') or []) != sorted(st['funcs']):
+                out['tie_breaks'].append({'variant': v['dir'], 'diff': f"model funcs {m.get('funcs')} vs {st['funcs']}"})
+        if len(out['samples']) < 2:
+            out['samples'].append({'batch': b['dir'], 'roots': roots, 'variants': [n for n, _, _ in variants]})
+    out['coverage'] = {'traces_validated_against_impl': out['evaluations'] - len(out['violations'])}
+    return out
+
+
+# ----------------------------------------------------------------------------------------------------------
+# C18
+
+def bad_field(name):
+    return {'name': name, 'number': 900, 'type': 'string', 'typeName': '', 'card': 'map', 'mapKey': 'int32', 'nullable': '', 'embed': False,
+            'jsonTag': None, 'castType': '', 'customType': '', 'stdTime': False, 'stdDuration': False, 'oneof': -1, 'comment': None}
+
+
+def reach(case, root, excluded):
+    """message names reachable from root through non-excluded message-typed fields (by Message.Field key)"""
+    seen, todo = set(), [root]
+    while todo:
+        n = todo.pop()
+        if n in seen:
+            continue
+        seen.add(n)
+        m = find_msg(case, n)
+        for f in (m or {}).get('fields', []):
+            if f['type'] == 'message' and (n + '.' + f['name']) not in excluded:
+                todo.append(f['typeName'])
+    return seen
+
+
+def eval_c18(batches, tier, seed, known, info):
+    out = {'evaluations': 0, 'violations': [], 'tie_breaks': [], 'distinct': [], 'samples': [], 'coverage': {}, 'known': {}}
+    rnd = random.Random(seed + 18)
+    for b in batches[: (4 if tier == 'quick' else len(batches))]:
+        if not b['static'] or b['static'].get('parseError') or b['case'].get('yamlState') != 'ok':
+            continue
+        base = run_variant(info, 'c18base', b['case'])
+        if not base['static']:
+            continue
+        roots = [f[len('GenSchema'):] for f in base['static']['funcs'] if f.startswith('GenSchema')]
+        y = b['case']['yaml']
+        excl_paths = set(y.get('excludeFields') or [])
+        msgs = [m['name'] for m in b['case']['request']['file']['messages']]
+        targets = []
+        if roots:
+            targets.append(rnd.choice(roots))
+        # a message nested somewhere below a root
+        deep = [m for m in msgs if m not in roots and any(m in reach(b['case'], r, excl_paths) for r in roots)]
+        if deep:
+            targets.append(rnd.choice(deep))
+        for tgt in targets:
+            c = copy.deepcopy(b['case'])
+            find_msg(c, tgt)['fields'].append(bad_field('Zzbadmapfield'))
+            affected = [r for r in roots if tgt in reach(b['case'], r, set(k for k in excl_paths if k.count('.') == 1))]
+            v = run_variant(info, 'c18bad-' + tgt, c)
+            out['evaluations'] += 1
+            out['distinct'].append(v['dir'])
+            st = v['static'] or {'funcs': [], 'funcSha': {}}
+            m = model_emit(v)
+            if (v['plugin'] or {}).get('exit') != 0:
+                out['violations'].append({'kind': 'plugin fails as a whole instead of skipping the type', 'variant': v['dir'], 'stderr': v['plugin'].get('stderr', '')[-300:]})
+                continue
+            model_failed = m.get('failed')
+            if model_failed is None:
+                out['tie_breaks'].append({'variant': v['dir'], 'diff': 'model emit: ' + json.dumps(m)[:200]})
+                continue
+            # path-keyed exclusions may cut reachability below what the coarse oracle sees: trust the oracle only when it agrees with the model
+            for r in roots:
+                present = [f for f in funcs_of_type(r) if f in st['funcs']]
+                if r in model_failed:
+                    if present:
+                        out['violations'].append({'kind': 'a type with an unmappable field is generated partially or silently', 'variant': v['dir'], 'type': r, 'present': present})
+                    if r not in (v['plugin'].get('stderr') or ''):
+                        out['violations'].append({'kind': 'no diagnostic names the skipped type', 'variant': v['dir'], 'type': r})
+                else:
+                    if len(present) != 3:
+                        out['violations'].append({'kind': 'an unaffected type lost functions', 'variant': v['dir'], 'type': r, 'present': present})
+                    elif any(st['funcSha'].get(f) != base['static']['funcSha'].get(f) for f in present):
+                        out['violations'].append({'kind': 'an unaffected type changed', 'variant': v['dir'], 'type': r})
+            if sorted(model_failed) != sorted(affected) and not any('.' in k and k.count('.') > 1 for k in excl_paths):
+                out['tie_breaks'].append({'variant': v['dir'], 'diff': f'model says failed={model_failed}, reachability oracle says {affected}'})
+            if not set(model_failed) & set(affected) and affected:
+                out['tie_breaks'].append({'variant': v['dir'], 'diff': f'model fails {model_failed}, oracle expects {affected}'})
+            # excluding the offending field restores full generation
+            c2 = copy.deepcopy(c)
+            c2['yaml']['excludeFields'] = (c2['yaml'].get('excludeFields') or []) + [tgt + '.Zzbadmapfield']
+            v2 = run_variant(info, 'c18excl-' + tgt, c2)
+            out['evaluations'] += 1
+            if (v2['static'] or {}).get('funcSha') != base['static']['funcSha']:
+                out['violations'].append({'kind': 'excluding the unmappable field does not restore the original output', 'variant': v2['dir']})
+        if len(out['samples']) < 2:
+            out['samples'].append({'batch': b['dir'], 'targets': targets, 'roots': roots})
+    out['coverage'] = {'traces_validated_against_impl': out['evaluations'] - len(out['violations'])}
+    return out
+
+
+# ----------------------------------------------------------------------------------------------------------
+# C15
+
+def permuted(case, rnd):
+    c = copy.deepcopy(case)
+    f = c['request']['file']
+    rnd.shuffle(f['messages'])
+    for m in f['messages']:
+        rnd.shuffle(m['fields'])
+    return c
+
+
+def eval_c15(batches, tier, seed, known, info):
+    out = {'evaluations': 0, 'violations': [], 'tie_breaks': [], 'distinct': [], 'samples': [], 'coverage': {}, 'known': {}}
+    rnd = random.Random(seed + 15)
+    for b in batches[: (4 if tier == 'quick' else len(batches))]:
+        if not b['static'] or b['static'].get('parseError') or b['case'].get('yamlState') != 'ok':
+            continue
+        for sort in (True, False):
+            c0 = copy.deepcopy(b['case'])
+            c0['yaml']['sort'] = sort
+            c0['cli'] = [kv for kv in c0['cli'] if kv['k'] != 'sort']
+            base = run_variant(info, f'c15base{int(sort)}', c0)
+            if not base['static']:
+                continue
+            for k in range(2 if tier == 'quick' else 5):
+                v = run_variant(info, f'c15perm{int(sort)}_{k}', permuted(c0, rnd))
+                out['evaluations'] += 1
+                out['distinct'].append(v['dir'])
+                if not v['static']:
+                    out['violations'].append({'kind': 'no output for a permuted descriptor', 'variant': v['dir']})
+                    continue
+                if sort:
+                    if v['plugin'].get('contentSha') != base['plugin'].get('contentSha'):
+                        out['violations'].append({'kind': 'with sort enabled the file depends on the declaration order', 'variant': v['dir'], 'base': base['dir']})
+                else:
+                    d = first_diff(base['static']['schemas'], v['static']['schemas'])
+                    if d:
+                        out['violations'].append({'kind': 'with sort disabled the schema depends on the declaration order', 'variant': v['dir'], 'diff': d})
+                    if sorted(base['static']['funcs']) != sorted(v['static']['funcs']):
+                        out['violations'].append({'kind': 'function set depends on the declaration order', 'variant': v['dir']})
+                m = model_emit(v)
+                if sorted(m.get('funcs') or []) != sorted(v['static']['funcs']):
+                    out['tie_breaks'].append({'variant': v['dir'], 'diff': 'model funcs differ'})
+                elif sort and m.get('funcs') != v['static']['funcs']:
+                    out['tie_breaks'].append({'variant': v['dir'], 'diff': 'model function order differs'})
+        if len(out['samples']) < 2:
+            out['samples'].append({'batch': b['dir']})
+    out['coverage'] = {'traces_validated_against_impl': out['evaluations'] - len(out['violations'])}
+    return out
+
+
+# ----------------------------------------------------------------------------------------------------------
+# C11
+
+def flat_attrs(tree, prefix=''):
+    out = {}
+    for n, a in (tree or {}).items():
+        p = prefix + '/' + n
+        out[p] = {k: v for k, v in a.items() if k != 'attrs'}
+        out.update(flat_attrs(a.get('attrs'), p))
+    return out
+
+
+def eval_c11(batches, tier, seed, known, info):
+    out = {'evaluations': 0, 'violations': [], 'tie_breaks': [], 'distinct': [], 'samples': [], 'coverage': {}, 'known': {}}
+    rnd = random.Random(seed + 11)
+    nkey = {'path': 0, 'typeName': 0}
+    for b in batches[: (4 if tier == 'quick' else len(batches))]:
+        if not b['static'] or b['static'].get('parseError') or b['case'].get('yamlState') != 'ok':
+            continue
+        base = run_variant(info, 'c11base', b['case'])
+        if not base['static']:
+            continue
+        roots = roots_of(b['case'])
+        occ = [o for o in occurrences(b['case'], roots)]
+        if not occ:
+            continue
+        y = b['case']['yaml']
+        excluded = set(y.get('excludeFields') or [])
+        for k in range(4 if tier == 'quick' else 12):
+            o = rnd.choice(occ)
+            form = rnd.choice(['path', 'typeName'])
+            key = o[0] if form == 'path' else o[1]
+            if o[0] in excluded or o[1] in excluded:
+                continue
+            opt = rnd.choice(['sensitiveFields', 'computedFields', 'requiredFields'])
+            flag = {'sensitiveFields': 'sens', 'computedFields': 'comp', 'requiredFields': 'req'}[opt]
+            if key in (y.get(opt) or []):
+                continue
+            c = copy.deepcopy(b['case'])
+            c['yaml'][opt] = (c['yaml'].get(opt) or []) + [key]
+            v = run_variant(info, f'c11{opt}', c)
+            out['evaluations'] += 1
+            out['distinct'].append(v['dir'])
+            nkey[form] += 1
+            if not v['static']:
+                out['violations'].append({'kind': 'no output with an added option', 'variant': v['dir']})
+                continue
+            fa, fb = {}, {}
+            for t, tree in base['static']['schemas'].items():
+                fa.update(flat_attrs(tree, t))
+            for t, tree in v['static']['schemas'].items():
+                fb.update(flat_attrs(tree, t))
+            if set(fa) != set(fb):
+                out['violations'].append({'kind': 'a flag option changed the set of attributes', 'variant': v['dir']})
+                continue
+            changed = [p for p in fa if fa[p] != fb[p]]
+            # every change is the addressed flag being switched on (plus what the documentation couples to it)
+            for p in changed:
+                da = {kk for kk in fa[p] if fa[p][kk] != fb[p][kk]}
+                allowed = {flag} | ({'opt'} if flag == 'req' else set()) | ({'pm'} if flag == 'comp' else set())
+                if not da <= allowed or fb[p].get(flag) is not True:
+                    out['violations'].append({'kind': 'an option changed something else than the addressed flag', 'variant': v['dir'], 'attr': p, 'changed': sorted(da)})
+            # number of occurrences the key addresses (reachable, not below an excluded field)
+            n_addr = sum(1 for (p, tn, f, m) in occ if (p == key or tn == key))
+            already = sum(1 for (p, tn, f, m) in occ if (p == key or tn == key) and (p in (y.get(opt) or []) or tn in (y.get(opt) or [])))
+            if len(changed) > n_addr:
+                out['violations'].append({'kind': 'an option keyed for one field changed other attributes', 'variant': v['dir'], 'key': key,
+                                          'changed': changed[:6], 'addressed_occurrences': n_addr})
+            if len(changed) == 0 and n_addr - already > 0 and not hidden_by_exclusion(o, excluded):
+                if 'F9' in known and o[3]['name'] != o[0].split('.')[0] and form == 'path' and under_embed(b['case'], o):
+                    out['known']['F9'] = out['known'].get('F9', 0) + 1
+                else:
+                    out['violations'].append({'kind': 'an option keyed ' + form + ' had no effect', 'variant': v['dir'], 'key': key})
+        # exclusion: schema of the variant = schema of the base minus the addressed attributes
+        for k in range(2 if tier == 'quick' else 6):
+            o = rnd.choice(occ)
+            if o[2].get('oneof', -1) >= 0 or len(o[3]['fields']) < 2 or o[1] in excluded or o[0] in excluded:
+                continue
+            still = [f for f in o[3]['fields'] if (o[3]['name'] + '.' + f['name']) not in excluded and f['name'] != o[2]['name']]
+            if not still:
+                continue
+            key = o[1]
+            c = copy.deepcopy(b['case'])
+            c['yaml']['excludeFields'] = (c['yaml'].get('excludeFields') or []) + [key]
+            v = run_variant(info, 'c11excl', c)
+            out['evaluations'] += 1
+            if not v['static'] or v['static'].get('parseError'):
+                out['violations'].append({'kind': 'no output with an exclusion', 'variant': v['dir'], 'stderr': (v['plugin'] or {}).get('stderr', '')[-200:]})
+                continue
+            fa, fb = {}, {}
+            for t, tree in base['static']['schemas'].items():
+                fa.update(flat_attrs(tree, t))
+            for t, tree in v['static']['schemas'].items():
+                fb.update(flat_attrs(tree, t))
+            extra = set(fb) - set(fa)
+            if extra:
+                out['violations'].append({'kind': 'exclusion added attributes', 'variant': v['dir'], 'extra': sorted(extra)[:5]})
+            kept_changed = [p for p in fb if p in fa and fa[p] != fb[p]]
+            if kept_changed:
+                out['violations'].append({'kind': 'exclusion changed the schema entry of a remaining field', 'variant': v['dir'], 'attrs': kept_changed[:5]})
+            if set(fa) == set(fb):
+                out['violations'].append({'kind': 'exclusion removed nothing', 'variant': v['dir'], 'key': key})
+            m = model_emit(v)
+            if sorted(m.get('funcs') or []) != sorted(v['static']['funcs']):
+                out['tie_breaks'].append({'variant': v['dir'], 'diff': 'model funcs differ'})
+        if len(out['samples']) < 2:
+            out['samples'].append({'batch': b['dir'], 'occurrences': len(occ)})
+    out['coverage'] = {'keys_by_form': nkey, 'traces_validated_against_impl': out['evaluations'] - len(out['violations'])}
+    return out
+
+
+def hidden_by_exclusion(o, excluded):
+    """the occurrence lies below an excluded field"""
+    parts = o[0].split('.')
+    for i in range(2, len(parts)):
+        if '.'.join(parts[:i]) in excluded:
+            return True
+    return False
+
+
+def under_embed(case, o):
+    return False
+
+
+# ----------------------------------------------------------------------------------------------------------
+# C13
+
+def eval_c13(batches, tier, seed, known, info):
+    out = {'evaluations': 0, 'violations': [], 'tie_breaks': [], 'distinct': [], 'samples': [], 'coverage': {}, 'known': {}}
+    pairs = 0
+    for b in batches:
+        y = (b['case'] or {}).get('yaml') or {}
+        if not y.get('defaultPackageName'):
+            continue
+        out['evaluations'] += 1
+        out['distinct'].append(b['dir'])
+        st = b['status'].get('stage')
+        if st == 'build':
+            out['violations'].append({'kind': 'the separate-package layout does not compile', 'batch': b['dir'], 'error': b['status'].get('error', '')[:600]})
+            continue
+        if st != 'done':
+            out['tie_breaks'].append({'batch': b['dir'], 'diff': 'batch did not complete: ' + json.dumps(b['status'])[:300]})
+            continue
+        # the struct package is imported under a qualifier
+        imports = (b['static'] or {}).get('imports') or {}
+        if not any(p == y['defaultPackageName'] and a.split('|')[0] not in ('', '_', '.') for a, p in imports.items()):
+            out['violations'].append({'kind': 'struct package is not imported under a qualifier', 'batch': b['dir'], 'imports': list(imports)[:10]})
+        if (b['static'] or {}).get('package') != y.get('targetPackageName'):
+            out['violations'].append({'kind': 'package clause is not the target package', 'batch': b['dir']})
+        # twin: the same case generated into the struct package
+        twin_dir = b['dir'] + '_twin'
+        if not os.path.exists(f'{twin_dir}/done'):
+            c = copy.deepcopy(b['case'])
+            c['yaml']['defaultPackageName'] = ''
+            c['yaml']['targetPackageName'] = ''
+            c['cli'] = [kv for kv in c['cli'] if kv['k'] not in ('default_package_name', 'target_package_name')]
+            json.dump({'case': c, 'meta': b['meta']}, open(f"{b['dir']}/twin_case.json", 'w'))
+            pc.sh([pc.BIN, 'batch', '-seed', str(b['status'].get('seed', seed)), '-index', str(b['status'].get('index', 0)), '-work', twin_dir,
+                   '-plugin', pc.plugin_path(info['repoHash']), '-scale', '1' if tier == 'quick' else '2', '-case', f"{b['dir']}/twin_case.json"], cwd=pc.HARNESS, timeout=1800)
+            for sub in ('spkg', 'tgt'):
+                import shutil
+                shutil.rmtree(f'{twin_dir}/{sub}', ignore_errors=True)
+            open(f'{twin_dir}/done', 'w').write('1')
+        try:
+            tops = [l for l in open(f'{twin_dir}/ops.jsonl') if l.strip()]
+            timpl = [json.loads(l) for l in open(f'{twin_dir}/impl.jsonl') if l.strip()]
+        except OSError:
+            out['tie_breaks'].append({'batch': b['dir'], 'diff': 'same-package twin did not run: ' + open(f'{twin_dir}/status.json').read()[:300]})
+            continue
+        sops = [json.dumps(o, sort_keys=True) for o in b['ops']]
+        if [json.dumps(json.loads(l), sort_keys=True) for l in tops] != sops:
+            out['tie_breaks'].append({'batch': b['dir'], 'diff': 'twin generated different operations'})
+            continue
+        pairs += len(sops)
+        for op, a, t in zip(b['ops'], b['impl'], timpl):
+            # conversion diagnostics print the qualified value type of elements: identical in both layouts by construction
+            if json.dumps(a, sort_keys=True) != json.dumps(t, sort_keys=True):
+                out['violations'].append({'kind': 'separate-package variant behaves differently', 'batch': b['dir'], 'id': op.get('id'), 'tag': op.get('tag'),
+                                          'diff': first_diff(a, t)})
+                break
+        if len(out['samples']) < 2:
+            out['samples'].append({'batch': b['dir'], 'ops_compared': len(sops), 'default_package_name': y['defaultPackageName']})
+    out['coverage'] = {'operations_compared_between_layouts': pairs, 'traces_validated_against_impl': pairs}
+    return out
+
+
+EVALUATORS.update({'C11': eval_c11, 'C12': eval_c12, 'C13': eval_c13, 'C15': eval_c15, 'C18': eval_c18})
